@@ -136,6 +136,99 @@ def words_needed(g, ops):
             tot += (n // 4 + 3) if w == 32 else (n // 8 + 2)
     return tot + 2
 
+
+# ------------------------------------------------------------------ states chosen by the OUTPUT they produce / by a successor
+def _rotr(x, r, w):
+    r %= w
+    return ((x >> r) | (x << (w - r))) & ((1 << w) - 1)
+
+def state_with_output(rng, g, T):
+    """a (non-zero) state of generator g whose next native output is exactly T (solved from the scrambler)"""
+    info = GENS[g]
+    w, nb = info["w"], info["seed"]
+    M = (1 << w) - 1
+    nw = nb * 8 // w
+    s = [rng.getrandbits(w) | 1 for _ in range(nw)]
+    def inv(m):
+        return pow(m, -1, 1 << w)
+    if g in ("Xoroshiro64Star",):
+        s[0] = (T * inv(0x9E3779BB)) & M
+    elif g == "Xoroshiro64StarStar":
+        s[0] = (_rotr((T * inv(5)) & M, 5, w) * inv(0x9E3779BB)) & M
+    elif g in ("Xoroshiro128Plus",):
+        s[1] = (T - s[0]) & M
+    elif g == "Xoroshiro128PlusPlus":
+        s[1] = (_rotr((T - s[0]) & M, 17, w) - s[0]) & M
+    elif g == "Xoroshiro128StarStar":
+        s[0] = (_rotr((T * inv(9)) & M, 7, w) * inv(5)) & M
+    elif g in ("Xoshiro128Plus", "Xoshiro256Plus"):
+        s[3] = (T - s[0]) & M
+    elif g == "Xoshiro128PlusPlus":
+        s[3] = (_rotr((T - s[0]) & M, 7, w) - s[0]) & M
+    elif g == "Xoshiro256PlusPlus":
+        s[3] = (_rotr((T - s[0]) & M, 23, w) - s[0]) & M
+    elif g in ("Xoshiro128StarStar", "Xoshiro256StarStar", "Xoshiro512StarStar"):
+        s[1] = (_rotr((T * inv(9)) & M, 7, w) * inv(5)) & M
+    elif g == "Xoshiro512Plus":
+        s[2] = (T - s[0]) & M
+    elif g == "Xoshiro512PlusPlus":
+        s[0] = (_rotr((T - s[2]) & M, 17, w) - s[2]) & M
+    elif g == "XorShiftRng":
+        x = s[0]
+        t = (x ^ (x << 11)) & M
+        v = T ^ t ^ (t >> 8)            # w ^ (w >> 19) must equal v
+        wv = v
+        for _ in range(3):
+            wv = v ^ (wv >> 19)
+        s[3] = wv & M
+    elif g == "SplitMix64":
+        return None
+    else:
+        return None
+    if not any(s):
+        return None
+    return b"".join(x.to_bytes(w // 8, "little") for x in s)
+
+def special_states(rng, g, k=1):
+    """structured states of a linear generator: numeric coincidences between words, states whose output is 0 / all-ones /
+    1 / the high bit (guards on the produced value), one zero word"""
+    info = GENS[g]
+    w, nb = info["w"], info["seed"]
+    out = [(c, s_) for c, s_ in coincidence_seeds(rng, nb, k=k)]
+    for _ in range(k):
+        for T, tag in ((0, "out=0"), ((1 << w) - 1, "out=ones"), (1, "out=1"), (1 << (w - 1), "out=highbit")):
+            st = state_with_output(rng, g, T)
+            if st is not None and any(st):
+                out.append((tag, st))
+        b = bytearray(rand_bytes(rng, nb)); wb = w // 8
+        j = rng.randrange(nb // wb); b[j * wb:(j + 1) * wb] = bytes(wb)
+        if any(b):
+            out.append(("zero-word", bytes(b)))
+    return out
+
+def trajectory_preimages(ctx, g, targets, ks):
+    """for each structured target state t and each k: the state s with T^k s = t (T = the REAL step: its minimal polynomial P
+    is recovered by Berlekamp-Massey from the real orbit of t and s = (x^k mod P)^-1 (T) t is evaluated on that orbit) —
+    inputs for code that looks at the state or at the output *after* a few steps"""
+    n, nb = GENS[g]["n"], GENS[g]["seed"]
+    res = []
+    for tag, t in targets:
+        S = real_orbit(ctx, g, t, 2 * n + 2)
+        P, L = gf2.min_poly_from_bits([x & 1 for x in S])
+        if L != n:
+            continue
+        for k in ks:
+            Q = gf2.polyinv(gf2.powx(k, P), P)
+            if Q is None:
+                continue
+            s_int = 0
+            for i in range(Q.bit_length()):
+                if (Q >> i) & 1:
+                    s_int ^= S[i]
+            if s_int:
+                res.append((tag, k, s_int.to_bytes(nb, "little"), t))
+    return res
+
 # ------------------------------------------------------------------ C01 / C04: native step
 def native_cases(ctx, gens, nrand_q, nrand_t, steps_basis=3, steps_rand=24):
     cases = []
@@ -144,8 +237,21 @@ def native_cases(ctx, gens, nrand_q, nrand_t, steps_basis=3, steps_rand=24):
         nat = native(g)
         nrand = ctx.scale(nrand_q, nrand_t)
         walk = ctx.scale(8, info["seed"] * 8)
-        for cls, seed in seed_classes(ctx.rng, info["seed"], nrand, nzero_walk=walk):
-            k = steps_rand if cls in ("random", "ones", "highbit") else steps_basis
+        classes = seed_classes(ctx.rng, info["seed"], nrand, nzero_walk=walk)
+        if g == "SplitMix64":
+            # counters that reach a special value (0, 1, -1, 2^63, PHI, 2^32) after j steps: x = v - j*PHI
+            for v in (0, 1, MASK64, 1 << 63, PHI, 1 << 32, 0xffffffff):
+                for j in range(0, 9):
+                    classes.append(("counter-special", ((v - j * PHI) & MASK64).to_bytes(8, "little")))
+        if info["linear"]:
+            sp = special_states(ctx.rng, g, k=ctx.scale(1, 4))
+            classes += sp
+            # … and states that *reach* such a state after k steps (guards on the new state / on a later output)
+            tp = trajectory_preimages(ctx, g, ctx.rng.sample(sp, min(len(sp), ctx.scale(4, 12))), (1, 2, 3, 7))
+            for tag, kk, st, t in tp:
+                classes.append((f"reaches:{tag.split('_')[0]}", st))
+        for cls, seed in classes:
+            k = steps_rand if cls in ("random", "ones", "highbit", "counter-special") or cls.startswith("reaches") or cls.startswith("out=") else steps_basis
             c = [f"new 0 {g} seed {seed.hex()}", "ser 0"]
             for _ in range(k):
                 c += [f"{nat} 0", "ser 0"]
@@ -179,13 +285,7 @@ def tie_C02(ctx):
     seeds += coincidence_seeds(rng, 32, k=ctx.scale(2, 10))
     # seeds on which a small-constant addition of the key/IV expansion carries out of 32 bits (found once by
     # tools/gen_hc128_carry.py): they separate wrapping from saturating / checked arithmetic
-    cpath = os.path.join(VERIF, "corpus", "hc128_carry_seeds.json")
-    if os.path.exists(cpath):
-        corp = json.load(open(cpath))
-        keys = [k for k in corp if 256 <= int(k) < 272] + rng.sample(sorted(corp), min(len(corp), ctx.scale(40, 400)))
-        for k in keys:
-            for hx in corp[k][:1]:
-                seeds.append((f"carry@{'copy' if 256 <= int(k) < 272 else 'exp'}", bytes.fromhex(hx)))
+    seeds += hc128_edge_seeds(ctx, n_carry=ctx.scale(40, 400))
     long_idx = set(rng.sample(range(len(seeds)), ctx.scale(4, 40)))
     for i, (cls, s) in enumerate(seeds):
         words = 4200 if i in long_idx else rng.choice([16, 48, 80])
@@ -523,6 +623,17 @@ def tie_C06(ctx):
             if cmd.startswith("eq ") and x != "true":
                 ctx.fail("jump-commute", f"{c[0].split()[2]}: jump does not commute with stepping / long_jump", c,
                          expected="true", actual=x)
+    inj = []
+    for g in JUMPERS:
+        nb, nat = GENS[g]["seed"], native(g)
+        for img in (bytes(nb), b"\xff" * nb, (1).to_bytes(nb, "little"), (1 << (8 * nb - 1)).to_bytes(nb, "little")):
+            inj.append([f"de 0 {g} {img.hex()}", "clone 1 0", "clone 2 0", "jump 0", "ser 0", "ljump 1", "ser 1", f"{nat} 2", "jump 2",
+                        "ser 2", f"{nat} 0", "eq 0 2"])
+    h, _ = ctx.absolute("jump/long_jump from states injected through the serde image (all-zero, all-ones, extreme bits)", inj)
+    for c, o in zip(inj, h):
+        if o[0] == "ok" and o[-1] != "true":
+            ctx.fail("jump-commute", f"{c[0].split()[2]}: jump does not commute with stepping from the injected state", c,
+                     expected="true", actual=o[-1])
     preimage_C06(ctx)
     if ctx.thorough:
         falsify_C06(ctx, sample=2)
@@ -657,6 +768,23 @@ def tie_C07(ctx):
     for g, c, o in zip(meta, tri, outs):
         if st_int(o[2]) ^ st_int(o[5]) != st_int(o[8]):
             ctx.fail("linearity", f"{g}: the real step is not GF(2)-linear", c)
+    # "a generator seeded through the API never reaches the all-zero state": every seeding route, special arguments
+    sd, specials = [], [0, (-PHI) & MASK64, (-2 * PHI) & MASK64, (-3 * PHI) & MASK64, 1, MASK64, PHI]
+    for g in LINEAR:
+        nb = GENS[g]["seed"]
+        sd.append([f"new 0 {g} seed {'00' * nb}", "ser 0"])
+        for x in specials + [rng.getrandbits(64) for _ in range(ctx.scale(4, 60))]:
+            sd.append([f"new 0 {g} u64 {x:016x}", "ser 0"])
+        for k in range(0, 3):
+            for how in ("rng", "try"):
+                sd.append([f"src 1 z{nb * k}:{rand_bytes(rng, 2 * nb).hex()}", f"new 0 {g} {how} 1", "ser 0"])
+    outs = ctx.real("no seeding route (from_seed(0), seed_from_u64 specials, from_rng after zero blocks) yields the zero state", sd)
+    for c, o in zip(sd, outs):
+        img = o[-1]
+        if o[-2] == "ok" and img not in ("unsupported", "panic", "-") and st_int(img) == 0:
+            ctx.fail("zero-state", f"{c[-2].split()[2]}: `{c[-2][:60]}` produced the all-zero state (a fixed point: cycle of length 1)", c,
+                     expected="non-zero state", actual=img)
+    xorshift_zero_runs(ctx, "XorShiftRng from_rng/try_from_rng after long runs of all-zero blocks: never the zero state")
     if ctx.thorough:
         falsify_C07(ctx)
 
@@ -1367,6 +1495,20 @@ def tie_C13(ctx):
         for p in rng.sample(range(100, 400), nback):
             ds[p] = -rng.randrange(1, 100)
         scripts.append((f"backwards={nback}", probe_script(rng, ds)))
+    # probes that straddle a wrap of the 64-bit counter (second reading smaller, 32-bit delta small and positive), and
+    # probes whose readings are 2^63 or more apart: "not larger" is a statement about the u64 readings, not about a signed
+    # difference.  3 such probes are tolerated, 4 are NotMonotonic.
+    for nwrap in (1, 2, 3, 4, 5, 8):
+        for style in ("wrap", "far"):
+            z = probe_script(rng, [rng.randrange(1, 200) for _ in range(400)])
+            for p in rng.sample(range(100, 400), nwrap):
+                a, b_ = rng.randrange(1, 60), rng.randrange(1, 60)
+                if style == "wrap":
+                    z[1 + 4 * p], z[4 + 4 * p] = (1 << 64) - a, b_
+                else:
+                    hi = (1 << 63) + rng.randrange(1, 1 << 40)
+                    z[1 + 4 * p], z[4 + 4 * p] = hi, (hi + (1 << 63) + rng.randrange(1, 90)) & MASK64
+            scripts.append((f"{style}-probes={nwrap}", z))
     for frac in (0.85, 0.89, 0.9, 0.9034, 0.91, 0.95, 1.0):
         ds = [(100 * rng.randrange(1, 50)) if rng.random() < frac else rng.randrange(1, 99) for _ in range(400)]
         scripts.append((f"mod100~{frac}", probe_script(rng, ds)))
@@ -1577,6 +1719,7 @@ def tie_C14(ctx):
         for body in [bytes(2100), b"\xff" * 2100, rand_bytes(rng, 2100)]:
             for how in ("rng", "try"):
                 cases.append([f"src 1 {body.hex()}", f"new 0 {g} {how} 1", f"{native(g)} 0"])
+    cases += arith_edge_cases(ctx)
     # HC-128 far into the stream (counter arithmetic), ISAAC across many refills
     cases.append(["new 0 Hc128Rng seed " + "07" * 32] + ["fill 0 65536"] * 5 + ["u32 0", "u64 0"])
     cases.append(["new 0 IsaacRng seed " + "09" * 32] + ["fill 0 65535"] * 2 + ["u32 0", "u64 0"])
@@ -1652,6 +1795,64 @@ def tie_C15(ctx):
             if o[4] == o[9]:
                 ctx.fail("collision", f"{name} is not one-to-one: two different inputs give the same pool value", c,
                          expected="different pool values", actual=o[4])
+
+    # --- special points of the REAL affine maps (solved over GF(2) from their basis images): pre-images of 0, of all-ones, of
+    # single bits, fixed points, and x with F(x) = x ^ c — the values a guard such as `if mixer != self.data` can key on
+    def solve(cols, target):
+        """x with XOR_{i in x} cols[i] == target (Gaussian elimination), or None"""
+        rows = []          # (vector, combination)
+        for i, c in enumerate(cols):
+            v, comb = c, 1 << i
+            for pv, pc in rows:
+                if v & (pv & -pv):
+                    v ^= pv; comb ^= pc
+            if v:
+                # keep rows reduced by lowest set bit
+                rows.append((v, comb))
+        x, t = 0, target
+        for pv, pc in rows:
+            if t & (pv & -pv):
+                t ^= pv; x ^= pc
+        return x if t == 0 else None
+    if lin_ok:
+        sp, spmeta = [], []
+        for name, cols, zero, mk in (("lfsr in the pool (time fixed)", D, L0, lambda v: lf(v, 0)), ("stir", S, S0, st)):
+            lin = [c ^ zero for c in cols]
+            targets = [("F(x)=0", 0), ("F(x)=ones", MASK64), ("F(x)=1", 1), ("F(x)=2^63", 1 << 63), ("F(x)=2^32", 1 << 32)]
+            for tag, tv in targets:
+                x = solve(lin, tv ^ zero)
+                if x is not None:
+                    sp.append(mk(x)); spmeta.append((name, tag, x, tv))
+            # fixed point: (A ^ I) x = b
+            x = solve([c ^ (1 << i) for i, c in enumerate(lin)], zero)
+            if x is not None:
+                sp.append(mk(x)); spmeta.append((name, "F(x)=x", x, x))
+            for cst in (0x5555555555555555, 0xaaaaaaaaaaaaaaaa, 0x00000000ffffffff):
+                x = solve([c ^ (1 << i) for i, c in enumerate(lin)], zero ^ cst)       # F(x) = x ^ cst
+                if x is not None:
+                    sp.append(mk(x)); spmeta.append((name, f"F(x)=x^{cst:x}", x, x ^ cst))
+        hs, _ = ctx.absolute("lfsr / stir at the special points of the real affine map (pre-images of 0, ones, fixed points) vs model", sp)
+        for (name, tag, x, want), c, o in zip(spmeta, sp, hs):
+            ctx.dist["special:" + tag.split("^")[0]] += 1
+            if o[4] not in ("unsupported", "panic") and int(o[4], 16) != want:
+                ctx.fail("collision", f"{name}: at the point x={x:016x} with {tag} the real map leaves its own affine law "
+                         f"(it is affine on all basis vectors and random pairs), so it is not one-to-one", c,
+                         expected=f"{want:016x}", actual=o[4])
+    # --- the variable-rounds path (timer_stats(true)): the throw-away rounds must not change the fold
+    vr, vmeta = [], []
+    for _ in range(ctx.scale(60, 800)):
+        d, t = rng.getrandbits(64), rng.getrandbits(64)
+        if rng.random() < 0.3:
+            d = 1 << rng.randrange(64)
+        vr.append([f"timer 0 {t:x},{t:x},{t:x},{t:x}", "jit 1 0", f"setpool 1 {d:016x}", "stats 1 1", "pool 1", "calls 0"])
+        vr.append(lf(d, t))
+    hv, _ = ctx.absolute("lfsr fold with variable throw-away rounds (timer_stats(true)) vs model and vs the fixed-rounds fold", vr)
+    for k in range(0, len(vr), 2):
+        a, b = hv[k], hv[k + 1]
+        if a[4] != b[4] and "blocked" not in a and "panic" not in a:
+            ctx.fail("collision", "the fold of one time value into one pool value depends on the number of throw-away rounds: "
+                     "for fixed timer readings the step is no longer a function of (pool, time) that is one-to-one in the pool",
+                     vr[k], expected=b[4], actual=a[4])
 
 def falsify_C15(ctx):
     """birthday / low-weight search for a collision when the real map is not affine"""
@@ -1857,6 +2058,51 @@ def tie_C17(ctx):
             ctx.fail("debug", f"{g}: Debug output contains a state / buffered output word ({sorted(leak)[0]:#x})", c)
 
 # ------------------------------------------------------------------ C18: build configurations
+
+# ------------------------------------------------------------------ arithmetic-edge corpus shared by C02 / C14 / C18
+def hc128_edge_seeds(ctx, n_carry=40, per_kind=2):
+    """HC-128 seeds on which a small-constant addition of the key/IV expansion overflows: the total (tools/gen_hc128_carry.py)
+    and every single operand / partial sum with the constant (tools/gen_hc128_subsum.py)"""
+    rng, out = ctx.rng, []
+    cpath = os.path.join(VERIF, "corpus", "hc128_carry_seeds.json")
+    if os.path.exists(cpath):
+        corp = json.load(open(cpath))
+        keys = [k for k in corp if 256 <= int(k) < 272] + rng.sample(sorted(corp), min(len(corp), n_carry))
+        for k in keys:
+            for hx in corp[k][:1]:
+                out.append((f"carry@{'copy' if 256 <= int(k) < 272 else 'exp'}", bytes.fromhex(hx)))
+    spath = os.path.join(VERIF, "corpus", "hc128_subsum_seeds.json")
+    if os.path.exists(spath):
+        corp = json.load(open(spath))
+        for kind in sorted(corp):
+            for e in (corp[kind] if ctx.thorough else corp[kind][:per_kind]):
+                out.append((f"subsum:{kind}", bytes.fromhex(e["seed"])))
+    return out
+
+def long_stuck_case(rng, n=None, rounds=2):
+    """one collection with more than 65536 consecutive stuck measurements (counters of 8 and 16 bits, scratch memory
+    incremented hundreds of times), after which the timer recovers"""
+    n = n or (65536 + rng.randrange(1, 40))
+    deltas = [1234] + [1000] * n + [1007, 1019, 1051, 1004, 977, 1313, 2222, 3131, 4000, 4700]
+    return [f"timer 0 {rd_hex(meas_script(rng, deltas))}", "jit 1 0", f"rounds 1 {rounds}", "u64 1", "calls 0"]
+
+def arith_edge_cases(ctx):
+    rng, cases = ctx.rng, []
+    for cls, sd in hc128_edge_seeds(ctx, n_carry=ctx.scale(12, 200)):
+        cases.append([f"new 0 Hc128Rng seed {sd.hex()}", "u32 0", "fill 0 70"])
+        ctx.dist[f"hc128:{cls.split(':')[0]}"] += 1
+    for g in LINEAR:
+        for cls, st in special_states(rng, g, k=1):
+            if cls.startswith("out=") or cls.startswith("zero-word") or cls.startswith("sum0") or cls.startswith("neg"):
+                c = [f"new 0 {g} seed {st.hex()}", "u32 0", "u64 0", "fill 0 9"]
+                if GENS[g]["jump"]:
+                    c += ["jump 0", "ljump 0"]
+                cases.append(c)
+                ctx.dist["linear:" + cls.split("_")[0]] += 1
+    cases.append(long_stuck_case(rng))
+    ctx.dist["65536+ consecutive stuck measurements"] += 1
+    return cases
+
 def corpus_C18(ctx, serde_free=True):
     rng = random.Random(ctx.seed * 7919 + 18)
     cases = []
@@ -1887,6 +2133,7 @@ def corpus_C18(ctx, serde_free=True):
         t0 = rng.choice([(1 << 63) - 5, (1 << 63) - 1, MASK64 - 3])
         cases.append([f"timer 0 {rd_hex([t0, (t0 + 9) & MASK64, 5, 7, (t0 + 50) & MASK64, (t0 + 70) & MASK64])}", "jit 1 0",
                       "stats 1 0", "stats 1 1"])
+    cases += arith_edge_cases(ctx)
     return cases
 
 def tie_C18(ctx):
